@@ -1858,6 +1858,10 @@ class Exec:
                 if isinstance(x, VStr) and isinstance(x.s, str):
                     return [(st, VInt(len(x.s)))]
                 if isinstance(x, VStr) and x.z is not None:
+                    # LIMIT (stated in DESIGN A8): a symbolic str that is not a sequence of code points is represented by its UTF-8 octets,
+                    # and len() / indexing / slicing of it count OCTETS - exact for ASCII text (fingerprints, key ids, hex, armor) only.
+                    # Code that measures a non-ASCII text in characters where octets are meant is out of reach of the obligations and is
+                    # left to the runtime sweeps and bounded components, which use non-ASCII text.
                     return [(st, VInt(z3.Length(x.z)))]
                 if isinstance(x, VInt) and x.enum and self.repo.lookup(x.enum, '__len__'):
                     lk = self.repo.lookup(x.enum, '__len__')
